@@ -539,7 +539,7 @@ Fails(step, g, g2, cs) == {c \in cs \cap ClauseIds : ~Holds(c, step, g, g2)}
 (* instance only the transitions in which such a situation occurs are handed to the real code.  They are the  *)
 (* situations that a uniform sample of a large instance, or a random generator, reaches too rarely.           *)
 GoalNames == {"rematch_after_empty_round", "empty_round_after_match", "rate_boundary", "cap_with_other_auction",
-              "two_settle_in_block", "exact_remaining", "bid_on_sold_out", "nothing_sold_early_settle", "overdemand_with_surplus"}
+              "two_settle_in_block", "exact_remaining", "bid_on_sold_out", "nothing_sold_early_settle", "overdemand_with_surplus", "closed_auction_op", "settle_fixed_after_dust_bid"}
 Goal(n, step, g) ==
   LET pre == step.pre
       m   == step.act
@@ -576,5 +576,20 @@ Goal(n, step, g) ==
     [] n = "overdemand_with_surplus" ->   \* a batch auction is matched while its selling escrow holds donated coins and the book asks for more than is offered
          \E i \in 1..nA : /\ Closing(i) /\ g.don[SellAcc(i - 1)][pre.auctions[i].sellDenom] > 0
                            /\ AllTotal(pre.bids[i], pre.auctions[i].payDenom) > pre.auctions[i].sellAmt
+    [] n = "closed_auction_op" ->   \* a bid, a modification or a cancellation that only the auction's status forbids
+         /\ m.a \in {"Bid", "Modify", "Cancel"} /\ m.id \in 0..(nA - 1) /\ m.by \in Users
+         /\ LET a == pre.auctions[m.id + 1] IN
+            (CASE m.a = "Bid" -> a.status # "Started" /\ pre.allowed[m.id + 1][m.by] > 0 /\ m.amt > 0 /\ m.price > 0
+                                /\ m.type = (IF a.type = "F" THEN "F" ELSE m.type) /\ m.type \in {"F", "W", "M"}
+              [] m.a = "Modify" -> a.status # "Started" /\ a.type = "B" /\ m.bid \in 1..Len(pre.bids[m.id + 1])
+                                   /\ LET b == pre.bids[m.id + 1][m.bid] IN
+                                        b.bidder = m.by /\ b.denom = m.denom /\ m.price >= b.price /\ m.amt >= b.amt
+                                        /\ (m.price > b.price \/ m.amt > b.amt)
+              [] m.a = "Cancel" -> a.status # "StandBy" /\ a.auctioneer = m.by)
+    [] n = "settle_fixed_after_dust_bid" ->   \* a fixed-price auction settles with a bid worth no coin placed before a bid worth some
+         /\ m.a = "Block" /\ ok
+         /\ \E i \in 1..nA : /\ pre.auctions[i].type = "F" /\ pre.auctions[i].status = "Started" /\ step.post.auctions[i].status # "Started"
+                              /\ \E j, k \in 1..Len(pre.bids[i]) : j < k /\ ToSelling(pre.bids[i][j], pre.auctions[i].payDenom) = 0
+                                                                    /\ ToSelling(pre.bids[i][k], pre.auctions[i].payDenom) > 0
     [] OTHER -> FALSE
 =============================================================================
